@@ -7,7 +7,8 @@ what `codon.GetCodonTable` and `codon.Translate` answer in the compiled code) ag
 NCBI spec (`Spec/Ncbi.lean`); a changed letter in codon.go breaks one of the `decide`s
 (`Lemmas/NcbiTables.lean: rows_ok_*`, or `ids_complete` / `starts_eq` / `stops_eq` below).
 Part 2 is proved for EVERY table (no hypothesis, or `WFTable` where stated — a predicate that does not
-mention weights, so re-weighted tables satisfy it too) and every ASCII string of any length.
+mention weights, so re-weighted tables satisfy it too) and EVERY string of any length and any letters (codons are
+framed by letters since /repo 053f18d; the one-letter-per-codon clauses need A/C/G/T letters).
 -/
 namespace PolyVerif.Props.C06
 open PolyVerif PolyVerif.Codon PolyVerif.CodonTranslate
@@ -80,9 +81,12 @@ theorem codon_by_codon : ∀ id ∈ Spec.Ncbi.ids,
     cases h : (getCodonTable id).aminoAcids with
     | nil => exact absurd h this
     | cons a as => simp [emptyTable, h]
-  have hb : byteLen p.1 = 3 := by rw [byteLen_ascii (all64_ascii p.1 hc), h3]
+  have hb : byteLen p.1 ≠ 0 := by
+    intro h0
+    rw [(byteLen_eq_zero _).1 h0] at h3
+    cases h3
   simp only [translate, hne, hb]
-  rw [translateCore_eq_chunks _ _ (all64_ascii p.1 hc)]
+  rw [translateCore_eq_chunks]
   match hp1 : p.1, h3 with
   | [x, y, z], _ =>
     have := (hcells p hp).2
@@ -128,29 +132,29 @@ theorem reweight_wf (f : Str → Str → Int → Int) (t : Table) (h : WFTable t
 /-! ### Part 2: every table, every string -/
 
 /-- the translation is the concatenation, in order, of the residues of the complete in-frame codons -/
-theorem translate_chunks (t : Table) (s : Str) (hs : Ascii s) :
-    translateCore t s = (chunks3 s).flatMap (aaOf t) := translateCore_eq_chunks t s hs
+theorem translate_chunks (t : Table) (s : Str) :
+    translateCore t s = (chunks3 s).flatMap (aaOf t) := translateCore_eq_chunks t s
 
 /-- a concatenation made at a codon boundary translates to the concatenation of the translations -/
-theorem translate_append (t : Table) (a b : Str) (ha : Ascii a) (hb : Ascii b) (h3 : a.length % 3 = 0) :
+theorem translate_append (t : Table) (a b : Str) (h3 : a.length % 3 = 0) :
     translateCore t (a ++ b) = translateCore t a ++ translateCore t b := by
-  rw [translate_chunks t _ (ascii_append.2 ⟨ha, hb⟩), translate_chunks t a ha, translate_chunks t b hb,
+  rw [translate_chunks t _, translate_chunks t a, translate_chunks t b,
       chunks3_append a b h3, List.flatMap_append]
 
 /-- a trailing partial codon is ignored -/
-theorem translate_tail (t : Table) (a r : Str) (ha : Ascii a) (hr : Ascii r) (h3 : a.length % 3 = 0) (hl : r.length < 3) :
+theorem translate_tail (t : Table) (a r : Str) (h3 : a.length % 3 = 0) (hl : r.length < 3) :
     translateCore t (a ++ r) = translateCore t a := by
-  rw [translate_append t a r ha hr h3, translate_chunks t r hr, chunks3_short r hl]
+  rw [translate_append t a r h3, translate_chunks t r, chunks3_short r hl]
   simp
 
 /-- letter case is irrelevant: two strings with the same upper-casing have the same translation -/
-theorem translate_case (t : Table) (s s' : Str) (hs : Ascii s) (hs' : Ascii s') (h : upper s = upper s') :
+theorem translate_case (t : Table) (s s' : Str) (h : upper s = upper s') :
     translateCore t s = translateCore t s' := by
   have key : ∀ x : Str, (chunks3 x).flatMap (aaOf t) = (chunks3 (upper x)).flatMap (mapGetStr (translationMap t)) := by
     intro x
     simp only [upper, chunks3_map, List.flatMap_map]
     rfl
-  rw [translate_chunks t s hs, translate_chunks t s' hs', key, key, h]
+  rw [translate_chunks t s, translate_chunks t s', key, key, h]
 
 theorem upper_upper_acgt : ∀ c ∈ acgtLetters, c.toUpper.toUpper = c.toUpper ∧ c.toLower.toUpper = c.toUpper ∧
     c.toUpper.val ≤ 127 ∧ c.toLower.val ≤ 127 ∧ c.val ≤ 127 := by decide
@@ -160,21 +164,11 @@ theorem acgt_ascii {s : Str} (h : Acgt s) : Ascii s := fun c hc => (upper_upper_
 /-- in particular the upper-cased and the lower-cased copy of a DNA string translate like the string itself -/
 theorem translate_case_upper_lower (t : Table) (s : Str) (h : Acgt s) :
     translateCore t (upper s) = translateCore t s ∧ translateCore t (lower s) = translateCore t s := by
-  have hu : Ascii (upper s) := by
-    intro c hc
-    simp only [upper, List.mem_map] at hc
-    obtain ⟨a, ha, rfl⟩ := hc
-    exact (upper_upper_acgt a (h a ha)).2.2.1
-  have hl : Ascii (lower s) := by
-    intro c hc
-    simp only [lower, List.mem_map] at hc
-    obtain ⟨a, ha, rfl⟩ := hc
-    exact (upper_upper_acgt a (h a ha)).2.2.2.1
   constructor
-  · apply translate_case t _ _ hu (acgt_ascii h)
+  · apply translate_case t _ _
     simp only [upper, List.map_map]
     exact List.map_congr_left fun a ha => (upper_upper_acgt a (h a ha)).1
-  · apply translate_case t _ _ hl (acgt_ascii h)
+  · apply translate_case t _ _
     simp only [upper, lower, List.map_map]
     exact List.map_congr_left fun a ha => (upper_upper_acgt a (h a ha)).2.1
 
@@ -203,11 +197,26 @@ theorem aaOf_single (t : Table) (h : WFTable t) (c : Str) (hc : Acgt c) (h3 : c.
       simp only [aaOf, mapGetStr]
       rw [← hek, hg, hv2]
 
+/-- a codon that holds a letter outside A/C/G/T (in either case) — N, U, a gap, a letter outside ASCII — is in no
+well-formed table: it contributes NO residue (the empty string), and the frame goes on with the next three letters.
+With `translate_chunks` this says what the translation of an arbitrary string is: one residue per complete in-frame
+A/C/G/T codon, nothing for the other complete codons, nothing for a trailing partial codon. -/
+theorem translate_foreign_codon (t : Table) (h : WFTable t) (c : Str) (hc : upper c ∉ all64) : aaOf t c = [] := by
+  simp only [aaOf, mapGetStr]
+  have : mapGet (translationMap t) (upper c) = none := by
+    rw [mapGet_none_iff]
+    intro e he hek
+    apply hc
+    apply h.1.2.1
+    rw [triplets_eq_keys]
+    exact hek ▸ List.mem_map_of_mem (f := (·.1)) he
+  rw [this]
+
 /-- one residue per complete in-frame codon: for an A/C/G/T string under a well-formed table the
 translation has exactly ⌊|s|/3⌋ letters -/
 theorem translate_len (t : Table) (h : WFTable t) (s : Str) (hs : Acgt s) :
     (translateCore t s).length = s.length / 3 := by
-  rw [translate_chunks t s (acgt_ascii hs), ← chunks3_length]
+  rw [translate_chunks t s, ← chunks3_length]
   have : ∀ l : List Str, (∀ c ∈ l, Acgt c ∧ c.length = 3) → (l.flatMap (aaOf t)).length = l.length := by
     intro l
     induction l with
@@ -228,7 +237,7 @@ theorem translate_map (t : Table) (h : WFTable t) (s : Str) (hs : Acgt s) :
   · intro c hc
     obtain ⟨r, hr⟩ := aaOf_single t h c (fun x hx => hs x (chunks3_mem_sub s c hc x hx)) (chunks3_mem_length s c hc)
     simp [hr]
-  · rw [translate_chunks t s (acgt_ascii hs)]
+  · rw [translate_chunks t s]
     have : ∀ l : List Str, (∀ c ∈ l, ∃ r, aaOf t c = [r]) → l.flatMap (aaOf t) = l.map fun c => (aaOf t c).headD '?' := by
       intro l
       induction l with
@@ -258,7 +267,7 @@ theorem translate_is_ncbi : ∀ id ∈ Spec.Ncbi.ids, ∀ s : Str, Acgt s →
     Spec.Ncbi.translation id s = some (translateCore (getCodonTable id) s) := by
   intro id hid s hs
   obtain ⟨hlen, _, hcells⟩ := rowOk_spec (rows_ok id hid)
-  rw [translate_chunks _ s (acgt_ascii hs)]
+  rw [translate_chunks _ s]
   simp only [Spec.Ncbi.translation]
   -- per codon
   have cell : ∀ x ∈ acgtLetters, ∀ y ∈ acgtLetters, ∀ z ∈ acgtLetters,
@@ -288,19 +297,17 @@ theorem translate_empty_table (s : Str) : translate s { startCodons := [], stopC
 theorem translate_empty_sequence (t : Table) : translate [] t = .err := by
   simp [translate, byteLen]
 
-theorem translate_ok (t : Table) (s : Str) (ht : emptyTable t = false) (hs : s ≠ []) (ha : Ascii s) :
+theorem translate_ok (t : Table) (s : Str) (ht : emptyTable t = false) (hs : s ≠ []) :
     translate s t = .ok (translateCore t s) := by
-  have : byteLen s ≠ 0 := by
-    rw [byteLen_ascii ha]
-    exact fun h => hs (List.length_eq_zero_iff.1 h)
+  have : byteLen s ≠ 0 := fun h => hs ((byteLen_eq_zero s).1 h)
   simp [translate, ht, this]
 
 /-- the concatenation law at the level of the API, for two non-empty pieces -/
-theorem translate_append_api (t : Table) (ht : emptyTable t = false) (a b : Str) (ha : Ascii a) (hb : Ascii b)
+theorem translate_append_api (t : Table) (ht : emptyTable t = false) (a b : Str)
     (hna : a ≠ []) (hnb : b ≠ []) (h3 : a.length % 3 = 0) :
     ∃ va vb, translate a t = .ok va ∧ translate b t = .ok vb ∧ translate (a ++ b) t = .ok (va ++ vb) := by
-  refine ⟨translateCore t a, translateCore t b, translate_ok t a ht hna ha, translate_ok t b ht hnb hb, ?_⟩
-  rw [translate_ok t (a ++ b) ht (by simp [hna]) (ascii_append.2 ⟨ha, hb⟩), translate_append t a b ha hb h3]
+  refine ⟨translateCore t a, translateCore t b, translate_ok t a ht hna, translate_ok t b ht hnb, ?_⟩
+  rw [translate_ok t (a ++ b) ht (by simp [hna]), translate_append t a b h3]
 
 /-- … and the degenerate split points 0 and n: the API rejects the empty piece (`errEmtpySequenceString`) while
 its translation proper is the empty protein, so the law holds there only when that error is READ AS the empty
@@ -328,7 +335,8 @@ example : translate "AAA".toList
       aminoAcids := [{ letter := ['X'], codons := [{ triplet := "AAA".toList, weight := 1 }] },
                      { letter := ['Y'], codons := [{ triplet := "AAA".toList, weight := 1 }] }] } = .ok ['Y'] := by decide +kernel
 
-/-- a codon the table does not list contributes the empty string -/
-example : translate "ATGNNNTAA".toList (getCodonTable 1) = .ok "M*".toList := by decide +kernel
+/-- a codon the table does not list contributes the empty string; letters outside ASCII count as one letter each -/
+example : translate "ATGNNNTAA".toList (getCodonTable 1) = .ok "M*".toList ∧
+    translate "ATéGCTTAA".toList (getCodonTable 1) = .ok "A*".toList := by decide +kernel
 
 end PolyVerif.Props.C06
